@@ -169,3 +169,15 @@ Theorem C09_regenerated_run_refines : forall k, is_cmp k = true -> forall evs,
   g_compound_run k evs g_init = snd (ideal_run k [] (map fst evs)).
 Proof. exact gen_compound_run_refines. Qed.
 Print Assumptions C09_regenerated_run_refines.
+
+(* the compound tree's constructor stores the codec its caller passed and nothing else (Gen/Bindings.v, regenerated):
+   the codec the theorems above quantify over is the one the caller chose *)
+From GoArt Require Import Proofs.BindingFacts.
+From GoArt Require Gen.Bindings.
+From Coq Require Import String.
+Local Open Scope string_scope.
+Theorem C09_compound_constructor_stores_the_callers_codec :
+  map (fun c => (ctor_fields c, ctor_stmts c)) (filter (fun c => String.eqb (ctor_tree c) "compoundSortedTree") Bindings.constructors) =
+  [([("bck", "bck")], ["return-literal"])]%string.
+Proof. exact compound_constructor_stores_the_callers_codec. Qed.
+Print Assumptions C09_compound_constructor_stores_the_callers_codec.
